@@ -88,7 +88,7 @@ def check(ctx, clause, modules=None):
         for call in finds:
             n += 1
             par = pm.get(call)
-            key = "R-SENT|%s|%s" % (f.short, norm(call)[:60])
+            key = "R-SENT|%s|%s" % (f.short, f.key(call)[:60])
             why = None
             # (iii)/(i) direct comparison
             if isinstance(par, ast.Compare):
